@@ -931,4 +931,91 @@ theorem SetRefreshToken_GetRefreshToken (sd : Go.SessData) (tok : Go.Str) (fuel 
       exact h6 q (by show q ≠ sd.refreshSession; rw [hwf]; exact hq) hqc
 
 
+/-! ### writing one token does not change what is read of the other -/
+theorem imapGet_mem (m : List (Int × Go.SessPtr)) (i : Int) (h : (Go.imapGet m i).2 = true) : (i, (Go.imapGet m i).1) ∈ m := by
+  unfold Go.imapGet at h ⊢
+  cases hf : m.find? (fun p => p.1 == i) with
+  | none => simp [hf] at h
+  | some p =>
+    simp only
+    have hm := List.mem_of_find?_eq_some hf
+    have hp := List.find?_some hf
+    have : p.1 = i := by simpa using hp
+    rw [← this]
+    exact hm
+
+/-- a getter reads the heap only at its own session and at the sessions its chunk map points to -/
+theorem getTok_congr (S : Side) (fuel : Nat) (sd sd' : Go.SessData)
+    (hp : S.ptr sd' = S.ptr sd) (hc : S.chunks sd' = S.chunks sd) (hd : sd'.decompress = sd.decompress)
+    (hr : Go.regGet sd'.reg (S.ptr sd) = Go.regGet sd.reg (S.ptr sd))
+    (hrc : ∀ i q, (i, q) ∈ S.chunks sd → Go.regGet sd'.reg q = Go.regGet sd.reg q) :
+    getTok S fuel sd' = getTok S fuel sd := by
+  have hb : getBody S sd' = getBody S sd := by
+    funext ⟨chunks, i⟩
+    unfold getBody
+    simp only [hc]
+    cases hok : (Go.imapGet (S.chunks sd) i).2 with
+    | false =>
+      have : Go.imapGet (S.chunks sd) i = ((Go.imapGet (S.chunks sd) i).1, false) := by rw [← hok]
+      rw [this]
+      simp
+    | true =>
+      have hm := imapGet_mem _ _ hok
+      have e := sessVal_of_reg sd sd' _ (hrc _ _ hm) kChunk
+      have : Go.imapGet (S.chunks sd) i = ((Go.imapGet (S.chunks sd) i).1, true) := by rw [← hok]
+      rw [this]
+      simp only [e]
+  unfold getTok
+  rw [hp, hc, hd, hb, sessVal_of_reg sd sd' _ hr kTok, sessVal_of_reg sd sd' _ hr kComp]
+
+/-- **`SetAccessToken` leaves the refresh token as it was** (what `GetRefreshToken` returns is the same before and after), when the
+    sessions are named as `GetSession` names them: the two fixed cookies, and refresh chunks under `_oidc_raczylo_r_<i>` -/
+theorem SetAccessToken_keeps_refresh (sd : Go.SessData) (tok : Go.Str) (fuel : Nat)
+    (hwf : sd.accessSession = Code.accessTokenCookie) (hwr : sd.refreshSession = Code.refreshTokenCookie)
+    (hchunks : ∀ i q, (i, q) ∈ sd.refreshTokenChunks → ∃ j, q = Go.chunkName Code.refreshTokenCookie j)
+    (hdec : sd.decompress (sd.compress tok) = tok) (hne : sd.compress tok ≠ [])
+    (hf : (sd.compress tok).length < fuel)
+    (hterm : sd.hasRequest = true → ∃ N : Nat, N < fuel ∧ (∀ j : Nat, j < N → chunkIsNew Code.accessTokenCookie sd j = false) ∧
+        chunkIsNew Code.accessTokenCookie sd N = true) :
+    ∃ sd', Code.SessionData_SetAccessToken fuel sd tok = some sd' ∧
+      Code.SessionData_GetRefreshToken fuel sd' = Code.SessionData_GetRefreshToken fuel sd := by
+  obtain ⟨sd', h1, _, h3, h4, h5, _⟩ := SetAccessToken_GetAccessToken sd tok fuel hwf hdec hne hf hterm
+  refine ⟨sd', h1, ?_⟩
+  rw [GetRefreshToken_eq, GetRefreshToken_eq]
+  have hdd : sd'.decompress = sd.decompress := by
+    -- (the setter only changes the heap and the access chunk map)
+    obtain ⟨sd'', g1, _, g3, _⟩ : ∃ s, Code.SessionData_SetAccessToken fuel sd tok = some s ∧ True ∧ s.decompress = sd.decompress ∧ True := by
+      rw [SetAccessToken_eq]
+      have hptr : ∀ sdx : Go.SessData, sdx.accessSession = Code.accessTokenCookie → ∀ i, accessSide.ptr sdx ≠ Go.chunkName accessSide.base i := by
+        intro sdx h i
+        show sdx.accessSession ≠ Go.chunkName Code.accessTokenCookie i
+        rw [h]; exact (chunkName_ne_base _ _).symm
+      by_cases hreq : sd.hasRequest = true
+      · obtain ⟨N, hN, hold, hnew⟩ := hterm hreq
+        obtain ⟨sd1, hloop, hfr⟩ := expireLoop Code.accessTokenCookie (fun _ => true) (fun _ => rfl) N 0 sd fuel
+          (fun j hj => by simpa using hold j hj) (by simpa using hnew) hN
+        have hexp : Code.SessionData_expireAccessTokenChunks fuel sd false = some sd1 := by rw [expireAccess_eq, hloop]
+        have e1 := hfr.only_reg
+        have hacc1 : sd1.accessSession = Code.accessTokenCookie := by rw [e1]; exact hwf
+        have hc1 : sd1.compress = sd.compress := by rw [e1]
+        have hd1 : sd1.decompress = sd.decompress := by rw [e1]
+        obtain ⟨s, a1, _, a3, _⟩ := setRest_get accessSide accessSide_ok sd1 tok (hptr sd1 hacc1)
+          (by rw [hc1, hd1]; exact hdec) (by rw [hc1]; exact hne) fuel (by rw [hc1]; exact hf)
+        exact ⟨s, by simp only [hreq, if_true, hexp, Option.bind_some]; exact a1, trivial, a3.trans hd1, trivial⟩
+      · obtain ⟨s, a1, _, a3, _⟩ := setRest_get accessSide accessSide_ok sd tok (hptr sd hwf) hdec hne fuel hf
+        exact ⟨s, by simp only [hreq, Bool.false_eq_true, if_false]; exact a1, trivial, a3, trivial⟩
+    rw [h1] at g1
+    cases g1
+    exact g3
+  apply getTok_congr refreshSide fuel sd sd'
+  · exact h4
+  · exact h5
+  · exact hdd
+  · show Go.regGet sd'.reg sd.refreshSession = Go.regGet sd.reg sd.refreshSession
+    rw [hwr]
+    exact h3 _ (by decide) (fun i => (chunkName_ne_other _ _ i (by decide)).symm)
+  · intro i q hq
+    obtain ⟨j, rfl⟩ := hchunks i q hq
+    exact h3 _ (chunkName_ne_other _ _ j (by decide)) (fun i => (chunkName_bases _ _ i j (by decide) (by decide)).symm)
+
 end Oidc.CodeRefine
